@@ -131,6 +131,9 @@ def entry_case(name, inner):
                     seen['in_inner'] = False
                     seen['inner_result'] = r
                     return r
+                inl = G.inline_helper(it2, pname, sp)
+                if inl is not None:
+                    return inl        # an un-annotated helper shared by start symbols (returns a tuple): its own sub-parsers are the ones observed
                 k = len(seen['sub'])
                 tls = it2.env['tls']
                 seen['sub'].append((pname, is_initial(tls), len(tls['IN_DIRECTIVE'].fields[0].fields), len(tls['CURRENT_VERSION'].fields[0].fields),
